@@ -8,6 +8,7 @@ import (
 	"net"
 	"strings"
 	"sync"
+	"sync/atomic"
 	"time"
 
 	"github.com/mdzio/go-mqtt/service"
@@ -301,7 +302,8 @@ func runKeepAlive(steps []kaStep, k, req int, unit time.Duration) string {
 
 // rawConnect opens a connection on a fresh pipe and completes the CONNECT handshake
 func (r *brokerRun) rawConnect(name string, a bAct) (*bConn, error) {
-	cl, sv := net.Pipe()
+	cl, sv0 := net.Pipe()
+	sv := &halfConn{Conn: sv0}
 	if err := service.VerifServe(r.svr, sv); err != nil {
 		return nil, err
 	}
@@ -313,9 +315,32 @@ func (r *brokerRun) rawConnect(name string, a bAct) (*bConn, error) {
 	if p.first != 0x20 || len(p.body) != 2 || p.body[1] != 0 {
 		return nil, fmt.Errorf("unexpected answer to CONNECT: %x %x", p.first, p.body)
 	}
-	m := &bConn{c: cl}
+	m := &bConn{c: cl, half: sv}
 	r.conns[name] = m
 	return m, nil
+}
+
+// halfConn: the broker's end of a pipe whose client can shut down its sending direction alone: the broker reads the
+// end of the stream, its writes go on as before (and block while the client does not read)
+type halfConn struct {
+	net.Conn
+	half int32
+}
+
+func (c *halfConn) Read(b []byte) (int, error) {
+	if atomic.LoadInt32(&c.half) == 1 {
+		return 0, io.EOF
+	}
+	n, err := c.Conn.Read(b)
+	if err != nil && atomic.LoadInt32(&c.half) == 1 {
+		return n, io.EOF
+	}
+	return n, err
+}
+
+func (c *halfConn) halfClose() {
+	atomic.StoreInt32(&c.half, 1)
+	c.Conn.SetReadDeadline(time.Now()) // a Read in progress returns now
 }
 
 var _ = io.EOF
